@@ -34,6 +34,37 @@ def has_frozen(d):
   return any(has_frozen(e) for e in d if isinstance(e, tuple))
 
 
+def min_size_gap(a, b):
+  """True if somewhere a List in `a` demands a larger min_size than its counterpart in `b`."""
+  ca, cb = S.strip(a)[0], S.strip(b)[0]
+  if ca[0] == 'union':
+    return any(min_size_gap(c, b) for c in ca[1])
+  if cb[0] == 'union':
+    return any(min_size_gap(a, c) for c in cb[1])
+  if ca[0] != cb[0]:
+    return False
+  if ca[0] == 'list':
+    return ca[2] > cb[2] or min_size_gap(ca[1], cb[1])
+  if ca[0] == 'vtuple':
+    return min_size_gap(ca[1], cb[1])
+  if ca[0] == 'ddict':
+    return min_size_gap(ca[2], cb[2])
+  if ca[0] == 'tuple' and len(ca[1]) == len(cb[1]):
+    return any(min_size_gap(x, y) for x, y in zip(ca[1], cb[1]))
+  if ca[0] == 'dict':
+    db = dict(cb[1])
+    return any(k in db and min_size_gap(e, db[k]) for k, e in ca[1])
+  return False
+
+
+def dict_keys(core):
+  if core[0] == 'dict':
+    return {k for k, _ in core[1]}, None
+  if core[0] == 'ddict':
+    return set(), core[1]
+  return None, None
+
+
 def accepts(spec, tok):
   try:
     return ('ok', spec.apply(S.val(tok)))
@@ -82,7 +113,7 @@ def spec_item(rec, i):
       except REJ as e:
         rec.viol(f'L1-result-rejected/{base}', f'spec {d!r}: apply({t!r})={w!r} is then rejected: {type(e).__name__}', dict(trace, value=t))
   s = S.mk(d)
-  if s.has_default and not (pg.MISSING_VALUE == s.default):
+  if s.has_default and not (pg.MISSING_VALUE == s.default) and 'MISSING_VALUE' not in repr(s.default):
     dv = s.default
     try:
       r = S.mk(d).apply(copy.deepcopy(dv))
@@ -115,7 +146,8 @@ def pair_item(rec, i):
       rec.stat('compatible')
       bad = [P[k] for k in range(len(P)) if bbits[k] and not abits[k] and P[k] != 'MISSING']
       if bad:
-        cause = 'first-spec-is-frozen' if has_frozen(a_d) else f'{kind2(a_d)}~{kind2(b_d)}'
+        cause = ('first-spec-is-frozen' if has_frozen(a_d) else
+                 'list-min_size-ignored' if min_size_gap(a_d, b_d) else f'{kind2(a_d)}~{kind2(b_d)}')
         rec.viol(f'L3-compatible-but-narrower/{cause}',
                  f'{a_d!r}.is_compatible({b_d!r}) is True but value {bad[0]!r} is accepted by the second and rejected by the '
                  f'first ({len(bad)} such values)', dict(kind='pair', a=a_d, b=b_d, value=bad[0]))
@@ -132,10 +164,21 @@ def pair_item(rec, i):
       rec.viol(f'L4-extend-raises/{kind2(a_d)}~{kind2(b_d)}', f'{type(e).__name__}: {e}', dict(kind='pair', a=a_d, b=b_d))
       continue
     rec.stat('extend-ok')
-    shared = None
     ca, cb = S.strip(a_d)[0], S.strip(b_d)[0]
-    if ca[0] == 'dict' and cb[0] == 'dict':
-      shared = {k for k, _ in cb[1]}
+    bkeys, bregex = dict_keys(cb)
+    akeys, aregex = dict_keys(ca)
+    dictlike = bkeys is not None and akeys is not None
+    adds_keys = dictlike and (not akeys <= bkeys or (aregex is not None and aregex != bregex))
+
+    def base_accepts_projection(v):
+      import re
+      proj = {k: x for k, x in v.items() if k in bkeys or (bregex and isinstance(k, str) and re.fullmatch(bregex, k))}
+      try:
+        S.mk(b_d).apply(proj)
+        return True
+      except REJ:
+        return False
+
     bad = None
     for k, t in enumerate(P):
       if t == 'MISSING':
@@ -148,23 +191,21 @@ def pair_item(rec, i):
       if bbits[k]:
         continue
       v = S.val(t)
-      if shared is not None and isinstance(v, dict):
-        rb = accepts(S.mk(b_d), None) if False else None
-        try:
-          S.mk(b_d).apply(project(v, shared))
-          continue
-        except REJ:
-          pass
+      if dictlike and isinstance(v, dict) and base_accepts_projection(v):
+        continue        # only the fields they share are compared
       bad = t
       break
     if bad is not None:
-      rec.viol(f'L4-extended-accepts-more/{kind2(a_d)}~{kind2(b_d)}',
+      cause = 'frozen-value-not-revalidated' if has_frozen(a_d) else f'{kind2(a_d)}~{kind2(b_d)}'
+      rec.viol(f'L4-extended-accepts-more/{cause}',
                f'{a_d!r}.extend({b_d!r}) succeeded giving {c2!r}, which accepts {bad!r} that the base rejects',
                dict(kind='pair', a=a_d, b=b_d, value=bad))
       continue
     try:
-      if not S.mk(b_d).is_compatible(c2):
-        rec.viol(f'L4-base-not-compatible-with-extension/{kind2(a_d)}~{kind2(b_d)}',
+      if not adds_keys and not S.mk(b_d).is_compatible(c2):
+        cause = ('enum-extends-number' if ca[0] == 'enum' and cb[0] in ('int', 'float') else
+                 'frozen' if has_frozen(a_d) or has_frozen(b_d) else f'{kind2(a_d)}~{kind2(b_d)}')
+        rec.viol(f'L4-base-not-compatible-with-extension/{cause}',
                  f'{a_d!r}.extend({b_d!r}) = {c2!r} but base.is_compatible(extended) is False', dict(kind='pair', a=a_d, b=b_d))
         continue
     except Exception:  # pylint: disable=broad-except
